@@ -109,6 +109,8 @@ pub struct RetransEntry {
     msg_ctr: u32,
     // The retransmission counter
     counter: u16,
+    // Digest of the payload of the first transmission (`None` until it was handed to the transport)
+    payload_digest: Option<u64>,
 }
 
 impl RetransEntry {
@@ -124,11 +126,28 @@ impl RetransEntry {
             base_delay_interval_ms,
             msg_ctr,
             counter: 0,
+            payload_digest: None,
         }
     }
 
     pub fn get_msg_ctr(&self) -> u32 {
         self.msg_ctr
+    }
+
+    /// Remember the digest of the payload of the first transmission; for a retransmission,
+    /// check that the payload the message builder produced again is the one sent before.
+    ///
+    /// A retransmission re-uses the message counter - i.e. the AEAD nonce - of the original,
+    /// so a rebuilt payload that differs must never reach the wire.
+    pub fn check_payload_digest(&mut self, digest: u64) -> Result<(), Error> {
+        match self.payload_digest {
+            None => {
+                self.payload_digest = Some(digest);
+                Ok(())
+            }
+            Some(first) if first == digest => Ok(()),
+            Some(_) => Err(ErrorCode::Invalid.into()),
+        }
     }
 
     /// Return how much to delay before (re)transmitting the message
